@@ -89,7 +89,15 @@ impl Tokens {
     pub(crate) fn parse_literal(self) -> Result<UntypedExpr, Vec<ParseError>> {
         let mut parser = Parser::new(self.0);
         if let Some(token) = parser.tokens.next() {
-            parser.parse_literal(token, true).map_err(|_| parser.errors)
+            let literal = match parser.parse_literal(token, true) {
+                Ok(literal) if parser.errors.is_empty() => literal,
+                _ => return Err(parser.errors),
+            };
+            // nothing may follow the literal (it would be silently ignored otherwise):
+            if let Some(Token(_, meta)) = parser.tokens.next() {
+                return Err(vec![ParseError(ParseErrorEnum::InvalidLiteral, meta)]);
+            }
+            Ok(literal)
         } else {
             let e = ParseErrorEnum::InvalidLiteral;
             let meta = MetaInfo {
